@@ -91,10 +91,12 @@ func NewFixture(v Variant) *Fixture {
 		return append(make(policy.Policy, 0, len(p)+5), p...)
 	}
 	pol0 := withSpare(policy.MustConstruct(policy.Equal(".a?", literal.Int(1)), policy.Or(policy.Equal(".b?", literal.Int(2)), policy.Equal(".zz?", literal.Int(0)))))
-	pol1 := withSpare(policy.MustConstruct(policy.LessThanOrEqual(".c?", literal.Int(3))))
+	// (a negative slice bound: resolving it against lists of different lengths must not rebase the parsed selector)
+	pol1 := withSpare(policy.MustConstruct(policy.LessThanOrEqual(".c?", literal.Int(3)), policy.Any(".l?[-2:]", policy.GreaterThan(".", literal.Int(0))), policy.Equal(".l?[-1]", literal.Int(3))))
 	mk := func(iss, aud *fixtures.Key, pol policy.Policy) *delegation.Token {
-		// (a fixed expiration far in the future: whole seconds, so constructed and decoded variants agree)
-		opts := []delegation.Option{delegation.WithSubject(root.DID), delegation.WithNonce(fixedNonce), delegation.WithExpiration(time.Date(2300, 1, 1, 0, 0, 0, 0, time.UTC))}
+		// (a fixed expiration far in the future, with a sub-second fraction: the wire format is second-granular,
+		// so encoding must truncate a copy, never the token's own value)
+		opts := []delegation.Option{delegation.WithSubject(root.DID), delegation.WithNonce(fixedNonce), delegation.WithExpiration(time.Date(2200, 1, 1, 0, 0, 0, 250_000_000, time.UTC))}
 		for _, k := range v.Keys {
 			opts = append(opts, delegation.WithMeta(k, "m-"+k))
 		}
@@ -121,10 +123,12 @@ func NewFixture(v Variant) *Fixture {
 		}
 	}
 	f.Cids = []cid.Cid{synthCid("c20-d0"), synthCid("c20-d1")}
-	opts := []invocation.Option{invocation.WithNonce(fixedNonce), invocation.WithoutInvokedAt()}
+	opts := []invocation.Option{invocation.WithNonce(fixedNonce), invocation.WithInvokedAt(time.Date(2020, 2, 2, 2, 2, 2, 500_000_000, time.UTC)),
+		invocation.WithExpiration(time.Date(2200, 1, 1, 0, 0, 0, 0, time.UTC))}
 	for _, k := range v.Keys {
 		opts = append(opts, invocation.WithArgument(k, vals[k]), invocation.WithMeta(k, "m-"+k))
 	}
+	opts = append(opts, invocation.WithArgument("l", []int{1, 2, 3}))
 	inv, err := invocation.New(leaf.DID, root.DID, "/a", f.Cids, opts...)
 	if err != nil {
 		panic(err)
@@ -327,6 +331,25 @@ func Ops() []Op {
 			far := time.Date(2400, 1, 1, 0, 0, 0, 0, time.UTC)
 			return fmt.Sprint(f.Dlgs[0].IsValidAt(far), f.Dlgs[1].IsValidAt(far), f.Dlgs[0].IsValidAt(time.Unix(0, 0)), f.Dlgs[1].IsValidNow(), f.Inv.IsValidAt(far))
 		}},
+		{"inv.ExecutionAllowedWithArgsHook(longer-list)", func(f *Fixture, s Seam) string {
+			// the same shared policies evaluated against a list of another length
+			return errStr(f.Inv.ExecutionAllowedWithArgsHook(loader{f, s}, func(a args.ReadOnly) (*args.Args, error) {
+				point(s)
+				v := args.New()
+				for k, n := range a.Iter() {
+					if k == "l" {
+						continue
+					}
+					if err := v.Add(k, n); err != nil {
+						return nil, err
+					}
+				}
+				if err := v.Add("l", []int{9, 9, 9, 9, 3}); err != nil {
+					return nil, err
+				}
+				return v, nil
+			}))
+		}},
 		{"inv.ExecutionAllowedWithArgsHook(violating)", func(f *Fixture, s Seam) string {
 			return errStr(f.Inv.ExecutionAllowedWithArgsHook(loader{f, s}, func(a args.ReadOnly) (*args.Args, error) {
 				point(s)
@@ -362,7 +385,7 @@ var (
 )
 
 func dumpValue(b *strings.Builder, v reflect.Value, depth int) {
-	if depth > 12 {
+	if depth > 40 {
 		b.WriteString("<deep>")
 		return
 	}
